@@ -38,10 +38,10 @@ def run_driver(drv, jobs_in, timeout=1500, nproc=1):
     with ThreadPoolExecutor(nproc) as ex:
         parts = list(ex.map(lambda sl: _run_driver(drv, sl, timeout), slices))
     jobs = []; dfs_by = {}; crashes = []
-    for pi, (js, r, e, d) in enumerate(parts):
+    for pi, (js, r, e, d, begun) in enumerate(parts):
         jobs.extend(js)
         if r not in (0, 3):
-            crashes.append((r, e, js[-1].header if js and not js[-1].complete else "(between jobs) " + " | ".join(slices[pi])[:300]))
+            crashes.append((r, e, begun or slices[pi][0]))
         for k, x in enumerate(d):
             dfs_by[pi + k * nproc] = x
     return jobs, crashes, [dfs_by[i] for i in sorted(dfs_by)]
@@ -52,12 +52,14 @@ def _run_driver(drv, jobs, timeout=1500):
         rc, out, err = p.returncode, p.stdout, p.stderr
     except subprocess.TimeoutExpired as ex:
         rc, out, err = -999, (ex.stdout or b"").decode("utf-8", "replace") if isinstance(ex.stdout, bytes) else (ex.stdout or ""), "TIMEOUT"
-    res = []; cur = None; dfs = []
+    res = []; cur = None; dfs = []; begun = None
     for line in out.split("\n"):
         if not line:
             continue
         c = line[0]
-        if c == "J" and line[1] == " ":
+        if c == "B" and line[1] == " ":
+            begun = line[2:]; cur = None
+        elif c == "J" and line[1] == " ":
             cur = Job(line.split(" ", 2)[2]); res.append(cur)
         elif c == "D" and line[1] == " ":
             f = line.split(" "); dfs.append((int(f[1]), f[2] == "1"))
@@ -82,7 +84,7 @@ def _run_driver(drv, jobs, timeout=1500):
             cur.livelock = True
         elif c == "E" and len(line) == 1:
             cur.complete = True
-    return res, rc, err[-1500:], dfs
+    return res, rc, err[-1500:], dfs, begun
 
 def save(wd, name, lines):
     path = os.path.join(wd, name + ".txt")
@@ -90,23 +92,30 @@ def save(wd, name, lines):
         f.write("\n".join(lines) + "\n")
     return path
 
-def judge(res, wd, tag, jobs, crashes, pid):
-    """Crashes, livelocks and broken structure at quiescence are violations by themselves."""
+def judge(res, wd, tag, jobs, crashes, pid, cap=4):
+    """Crashes, livelocks and broken structure at quiescence are violations by themselves (at most `cap` reports per kind)."""
+    nl = ns = 0
     for i, j in enumerate(jobs):
         if j.livelock:
-            res.violations.append(("the real B-tree livelocked: threads still spinning after 200000 fairly scheduled steps: " + j.header,
-                                   save(wd, "%s_livelock_%d" % (tag, i), [j.header])))
-        for x in j.xs[:1]:
-            res.violations.append(("real B-tree: %s (job %r)" % (x, j.header), save(wd, "%s_struct_%d" % (tag, i), [j.header])))
+            nl += 1
+            if nl <= cap:
+                res.violations.append(("the real B-tree livelocked: threads still spinning after 200000 fairly scheduled steps: " + j.header[:1500],
+                                       save(wd, "%s_livelock_%d" % (tag, i), [j.header])))
+        if j.xs:
+            ns += 1
+            if ns <= cap:
+                res.violations.append(("real B-tree: %s (job %r)" % (j.xs[0][:1200], j.header[:600]), save(wd, "%s_struct_%d" % (tag, i), [j.header])))
         for e in j.errs[:1]:
-            res.infra_errors.append("%s: %s (job %r)" % (tag, e, j.header))
+            res.infra_errors.append("%s: %s (job %r)" % (tag, e, j.header[:300]))
         if j.ws:
             res.count("transient_structure_warnings", len(j.ws))
             if res.cov.get("transient_structure_warnings", 0) <= 3:
-                print("STRUCT-WARN property=%s %s (job %r)" % (pid, j.ws[0], j.header), flush=True)
+                print("STRUCT-WARN property=%s %s (job %r)" % (pid, j.ws[0], j.header[:300]), flush=True)
+    if nl or ns:
+        res.count("executions_livelocked", nl); res.count("executions_with_broken_structure", ns)
     for k, (rc, err, where) in enumerate(crashes):
         what = "timed out (a step of the real code did not return)" if rc == -999 else "died rc=%d" % rc
-        res.violations.append(("B-tree driver %s while running %r: %s" % (what, where, err[-400:]), save(wd, "%s_crash_%d" % (tag, k), [where])))
+        res.violations.append(("B-tree driver %s while running %r: %s" % (what, where[:600], err[-500:]), save(wd, "%s_crash_%d" % (tag, k), [where])))
 
 def _validate_shard(wd, name, jobs, uniq, mult, max_rejections=3):
     """returns (events accepted, executions validated, tlc results, violations, infra errors)"""
@@ -217,7 +226,7 @@ def coop_systematic(res, wd, drv, tier, tree="s3", pid=PID, nproc=4):
 
 def coop_random(res, wd, drv, tier, trees=("s3", "s256"), pid=PID, nrandom=None, nproc=2):
     rng = random.Random(seed() * 101 + 13)
-    n = nrandom or (1600 if tier == "quick" else 40000)
+    n = nrandom or (1200 if tier == "quick" else 40000)
     jobs_in = []
     for i in range(n):
         tree = trees[0] if i % 4 else trees[1]
@@ -303,15 +312,19 @@ def run(tier, replay_path=None):
     from concurrent.futures import ThreadPoolExecutor
     import time
     from ..common import log
+    only = set(filter(None, os.environ.get("VERIF_C25_ONLY", "").split(",")))      # developer aid: dfs,rnd,stress,abs,conc
+    on = lambda ph: not only or ph in only
     t0 = time.time()
     with ThreadPoolExecutor(4) as ex:
-        fa = ex.submit(abstract_model, res, wd)
-        f1 = ex.submit(coop_systematic, res, wd, drv, tier)
-        f2 = ex.submit(coop_random, res, wd, drv, tier)
-        jobs = f1.result() + f2.result()
-        fa.result()
+        fa = ex.submit(abstract_model, res, wd) if on("abs") else None
+        f1 = ex.submit(coop_systematic, res, wd, drv, tier) if on("dfs") else None
+        f2 = ex.submit(coop_random, res, wd, drv, tier) if on("rnd") else None
+        jobs = (f1.result() if f1 else []) + (f2.result() if f2 else [])
+        if fa:
+            fa.result()
     log("C25: cooperative runs %.0fs" % (time.time() - t0)); t0 = time.time()
-    jobs += stress(res, wd, drv, tier)          # real threads: not while the cooperative runs occupy the cores
+    if on("stress"):
+        jobs += stress(res, wd, drv, tier)          # real threads: not while the cooperative runs occupy the cores
     log("C25: stress runs %.0fs" % (time.time() - t0)); t0 = time.time()
     validate(res, wd, "MCT_C25", jobs, PID)
     log("C25: trace validation %.0fs" % (time.time() - t0))
@@ -319,6 +332,6 @@ def run(tier, replay_path=None):
         from . import c25conc
     except ImportError:
         c25conc = None
-    if c25conc:
+    if c25conc and on("conc"):
         c25conc.run(res, wd, drv, tier)
     return finish(res, "model_checking", assumptions=ASSUMPTIONS)
